@@ -1189,23 +1189,29 @@ Qed.
 Lemma cfg_new : Cfg (vs_fp VRoot) [] [] 0 false (new_scanner false).
 Proof. exists FoundRootValue, [], (new_context CInitial), 0, true. repeat split. Qed.
 
+(* at the end of the input nothing is open and the step is none of those that [tail] reports as an
+   unfinished annotation start or ### comment *)
 Lemma scan_closed bs evs (fp : st -> Prop) n u :
+  (forall f, fp f -> unfinished_step f = false) ->
   Tr (Cfg (vs_fp VRoot) [] [] 0 false) 0 bs evs (Cfg fp [] [] n u) -> scan false bs = (evs, Done).
 Proof.
-  intros H. destruct (H _ cfg_new) as [s' [[f [pcs [cx [bnd [al [Hf [Hn ->]]]]]]] K]].
+  intros Hu H. destruct (H _ cfg_new) as [s' [[f [pcs [cx [bnd [al [Hf [Hn ->]]]]]]] K]].
   destruct (K None [] []) as [pb' E1]. rewrite app_nil_r in E1. unfold scan. rewrite E1.
-  cbn [run s_stk length tail]. rewrite app_nil_r, frev_rev, rev_involutive. reflexivity.
+  cbn [run s_stk s_step length tail]. rewrite (Hu f Hf). rewrite app_nil_r, frev_rev, rev_involutive. reflexivity.
 Qed.
 Lemma scan_open_lit bs evs (fp : st -> Prop) p n :
+  (forall f, fp f -> unfinished_step f = false) ->
   Tr (Cfg (vs_fp VRoot) [] [] 0 false) 0 bs evs (Cfg fp [] [(LiteralBegin, p)] n false) ->
   scan false bs = (evs ++ [E LiteralEnd p (len bs - 1)], Done).
 Proof.
-  intros H. destruct (H _ cfg_new) as [s' [[f [pcs [cx [bnd [al [Hf [Hn ->]]]]]]] K]].
+  intros Hu H. destruct (H _ cfg_new) as [s' [[f [pcs [cx [bnd [al [Hf [Hn ->]]]]]]] K]].
   destruct (K None [] []) as [pb' E1]. rewrite app_nil_r in E1. unfold scan. rewrite E1.
-  cbn [run s_stk length tail]. cbn. rewrite app_nil_r.
+  cbn [run s_stk length tail]. cbn. rewrite (Hu f Hf). cbv beta iota. rewrite app_nil_r.
   change (N.of_nat (length bs)) with (len bs).
-  rewrite rev_append_rev, rev_involutive. reflexivity.
+  rewrite frev_rev. cbn [rev]. rewrite rev_involutive. reflexivity.
 Qed.
+Lemma litdone_finished f : litdone f -> unfinished_step f = false.
+Proof. intros [-> | [-> | [-> | ->]]]; reflexivity. Qed.
 
 Theorem scan_plain_json : forall w1 v w2,
   all_blank w1 = true -> Grammar.wf v = true -> all_blank w2 = true -> no_exponent v = true ->
@@ -1220,8 +1226,8 @@ Proof.
   - rewrite app_nil_r. cbn [nls]. rewrite app_nil_r.
     rewrite <- (open_close (len w1) v).
     destruct (is_tok v); cbn [VDone lit_end] in Hpre |- *.
-    + rewrite (scan_open_lit _ _ _ _ _ Hpre). rewrite <- app_assoc. repeat f_equal. len_solve.
-    + rewrite (scan_closed _ _ _ _ _ Hpre). rewrite app_nil_r. reflexivity.
+    + rewrite (scan_open_lit _ _ _ _ _ litdone_finished Hpre). rewrite <- app_assoc. repeat f_equal. len_solve.
+    + rewrite (scan_closed _ _ (eq EndValue) _ _ ltac:(intros f <-; reflexivity) Hpre). rewrite app_nil_r. reflexivity.
   - destruct (all_blank_cons c w2' H2) as [Hc Hw'].
     assert (Hall : Tr (Cfg (vs_fp VRoot) [] [] 0 false) 0 ((w1 ++ render v) ++ c :: w2')
                       ((nls 0 w1 ++ open_events (len w1) v) ++
@@ -1232,7 +1238,7 @@ Proof.
       eapply Tr_cons; [apply T_root_blank; exact Hc| |].
       - apply (T_blanks (eq SEndTop) w2'); [apply bclosed_eq; [reflexivity|discriminate]|exact Hw'].
       - rewrite N.add_0_l, len_app. reflexivity. }
-    rewrite <- app_assoc in Hall. rewrite (scan_closed _ _ _ _ _ Hall).
+    rewrite <- app_assoc in Hall. rewrite (scan_closed _ _ (eq SEndTop) _ _ ltac:(intros f <-; reflexivity) Hall).
     rewrite <- (open_close (len w1) v), nls_cons. f_equal. ev_fin.
 Qed.
 
@@ -1543,7 +1549,10 @@ Proof.
   { intros neg ip Hip.
     destruct (NumProofs.scan_render_value (NumSpec.mknumeral neg ip None None)) as [n [Hs [Hc Hv]]].
     - unfold NumSpec.wf_numeral. cbn. rewrite Hip. reflexivity.
-    - reflexivity.
+    - unfold NumSpec.exp_fits, NumSpec.exp_in_int, NumSpec.u_expval, NumSpec.u_fdigits.
+      cbn [NumSpec.u_exp NumSpec.u_fd NumSpec.u_ip andb length].
+      unfold NumModel.max_exponent_zeros.
+      apply andb_true_intro. split; apply BinInt.Z.leb_le; lia.
     - unfold NumSpec.zero_int_then_exp. cbn. destruct ip as [|? [|]]; reflexivity.
     - unfold NumSpec.render in Hs. cbn in Hs. rewrite app_nil_r in Hs. exists n. split; [exact Hs|].
       apply (NumProofs.integer_iff n Hc).
